@@ -4,6 +4,7 @@ import (
 	"context"
 
 	signaling "github.com/aperturerobotics/bifrost/signaling/rpc"
+	"github.com/aperturerobotics/bifrost/util/simhook"
 )
 
 // Listen watches the list of ongoing sessions with the peer.
@@ -23,6 +24,7 @@ func (s *Server) Listen(req *signaling.ListenRequest, strm signaling.SRPCSignali
 	*/
 
 	// Register this peer
+	simhook.Yield("sigsrv/listen/register", pidStr)
 	s.mtx.Lock()
 	tkr, existed := s.getPeer(pidStr)
 	if existed {
@@ -35,6 +37,7 @@ func (s *Server) Listen(req *signaling.ListenRequest, strm signaling.SRPCSignali
 
 	// Cleanup when we exit
 	defer func() {
+		simhook.Yield("sigsrv/listen/cleanup", pidStr)
 		s.mtx.Lock()
 		currTkr := s.peers[pidStr]
 		if currTkr == tkr && currTkr.listenNonce == listenNonce {
@@ -48,6 +51,7 @@ func (s *Server) Listen(req *signaling.ListenRequest, strm signaling.SRPCSignali
 
 	sentWant := make(map[string]struct{})
 	for {
+		simhook.Yield("sigsrv/listen/loop", pidStr)
 		s.mtx.Lock()
 		if tkr.listenNonce != listenNonce {
 			s.mtx.Unlock()
